@@ -397,7 +397,32 @@ def build(item: dict, kind: dict) -> tuple[int, bytes, bool]:
             return 6, (rng.choice([1, 2, 3, 4, 5, 6, 7, 8, 65535, 0]).to_bytes(2, 'big') + rng.choice([0, 2, 4, 9, 65535]).to_bytes(2, 'big') + rb(rng, rng.choice([0, 2, 4, 9, 40, size])))[:mx], False
         return 4, rb(rng, rng.choice([0, 1, 5])), False
     if g == 'valid-unusual':
-        style = rng.choice(['many-unknown', 'max-size', 'empty-values', 'wd-only-max', 'long-path', 'long-path'])
+        style = rng.choice(['many-unknown', 'max-size', 'empty-values', 'wd-only-max', 'long-path', 'long-path', 'attr-subset', 'attr-subset'])
+        if style == 'attr-subset':
+            # a well-formed UPDATE holding any subset of well-formed optional attributes in any order: each is legal alone and in
+            # every combination (RFC 6793 OLD-speaker leftovers included on a 2-byte session: AS4_PATH without AS4_AGGREGATOR, ...)
+            asn4 = kind['asn4']
+            w = 4 if asn4 else 2
+            agg_as = rng.choice([65010, 23456] if not asn4 else [65010, 4200000009])
+            pool = [
+                R.attribute(R.A_MED, (77).to_bytes(4, 'big')),
+                R.attribute(R.A_ATOMIC, b''),
+                R.attribute(R.A_AGGREGATOR, agg_as.to_bytes(w, 'big') + bytes([10, 0, 0, 7])),
+                R.attribute(R.A_COMMUNITY, b''.join(a.to_bytes(2, 'big') + b.to_bytes(2, 'big') for a, b in [(65000, 1), (65535, 65281)][: rng.randint(1, 2)])),
+                R.attribute(R.A_EXT_COMMUNITY, bytes.fromhex('0002fde800000001')),
+                R.attribute(R.A_LARGE_COMMUNITY, (1).to_bytes(4, 'big') + (2).to_bytes(4, 'big') + (3).to_bytes(4, 'big')),
+                R.attribute(R.A_AIGP, b'\x01\x00\x0b' + (1000).to_bytes(8, 'big')),
+            ]
+            if kind['peer_as'] == 65001:
+                pool += [R.attribute(R.A_ORIGINATOR, bytes([1, 2, 3, 4])), R.attribute(R.A_CLUSTER, bytes([1, 1, 1, 1, 2, 2, 2, 2]))]
+            path = [kind['peer_as']] if kind['peer_as'] != 65001 else []
+            if not asn4:
+                pool += [R.attribute(R.A_AS4_PATH, R.enc_as_path([(2, [4200000001, 65010])], True)), R.attribute(R.A_AS4_AGGREGATOR, (4200000009).to_bytes(4, 'big') + bytes([10, 0, 0, 7]))]
+                path = path + [23456, 65010]
+            lp = [R.attribute(R.A_LOCAL_PREF, (100).to_bytes(4, 'big'))] if kind['peer_as'] == 65001 else []
+            chosen = [a for a in pool if rng.chance(0.5)] + lp + [R.attribute(R.A_ORIGIN, b'\x00'), R.attribute(R.A_AS_PATH, R.enc_as_path([(2, path)] if path else [], asn4)), R.attribute(R.A_NEXT_HOP, bytes([10, 0, 0, 9]))]
+            rng.shuffle(chosen)
+            return 2, R.build_update(attrs=b''.join(chosen), nlri=v4nlri(kind))[19:], True
         if style == 'long-path':
             # AS paths whose (merged) sequence has 254, 255, 256 or 510 AS numbers
             total = rng.choice([254, 255, 255, 256, 510, 511])
